@@ -248,6 +248,83 @@ def absorb_independent(doc):
     return None
 
 
+def expose_calls(doc):
+    """bounded search over SEQUENCES of expose_inputs / expose_outputs calls on one spec (1 or 2 calls, same or different source
+    class, same or different namespace, include / exclude / neither, namespace options on either call): the destination holds
+    exactly the union of what each call selects, the options of a call are applied whenever it is made, and exclude+include
+    together is refused"""
+    import itertools
+    import plumpy
+
+    class SrcA(plumpy.Process):
+        @classmethod
+        def define(cls, spec):
+            super().define(spec)
+            for n in ('a', 'b', 'c'):
+                spec.input(n, valid_type=int, required=False)
+                spec.output(n, valid_type=int, required=False)
+            spec.input('sub.x', valid_type=int, required=False)
+            spec.output('sub.x', valid_type=int, required=False)
+
+    class SrcB(SrcA):
+        pass
+
+    own = {'inputs': set(), 'outputs': set()}
+
+    def selected(kw):
+        names = {'a', 'b', 'c', 'sub'}
+        if kw.get('include'):       # (an empty rule list is no rule, as in absorb_selection)
+            return {n for n in names if n in kw['include']}
+        if kw.get('exclude'):
+            return {n for n in names if n not in kw['exclude']}
+        return names
+    rules = [{}, {'include': ('a',)}, {'include': ('b', 'sub')}, {'exclude': ('a',)}, {'include': ()}]
+    spaces = [None, 'base', 'deep.er']
+    bad = []
+    for which in ('inputs', 'outputs'):
+        for (r1, r2), (n1, n2), (k1, k2), opt2 in itertools.product(itertools.product(rules, rules), itertools.product(spaces, spaces),
+                                                                   [(SrcA, SrcA), (SrcA, SrcB)], [None, {'help': 'second call'}]):
+            if n1 != n2 and r1 is not rules[1]:
+                continue        # different namespaces: one pair of rules is enough
+            spec = plumpy.ProcessSpec()
+            expose = spec.expose_inputs if which == 'inputs' else spec.expose_outputs
+            root = spec.inputs if which == 'inputs' else spec.outputs
+            before = set(root.keys())
+            try:
+                expose(k1, namespace=n1, **r1)
+                kw2 = dict(r2)
+                if opt2 is not None:
+                    kw2['namespace_options'] = dict(opt2)
+                expose(k2, namespace=n2, **kw2)
+            except Exception as e:  # noqa
+                bad.append(f'expose_{which}({k1.__name__}, namespace={n1}, {r1}) then ({k2.__name__}, namespace={n2}, {r2}, options={opt2}) raised {e!r}')
+                continue
+            want = {}
+            for n_, r_ in ((n1, r1), (n2, r2)):
+                want.setdefault(n_, set()).update(selected(r_))
+            for n_, names in want.items():
+                ns = root if n_ is None else root.get_port(n_)
+                got = set(ns.keys()) - (before if n_ is None else set()) - ({s_.split('.')[0] for s_ in spaces if s_} if n_ is None else set()) \
+                    - ({'er'} if n_ == 'deep' else set())
+                if n_ is None:
+                    names = names | set()
+                if got != names:
+                    bad.append(f'expose_{which}({k1.__name__}, namespace={n1}, {r1}) then ({k2.__name__}, namespace={n2}, {r2}): namespace '
+                               f'{n_!r} holds {sorted(got)}, expected the union {sorted(names)}')
+            if opt2 is not None and n2 is not None and root.get_port(n2).help != 'second call':
+                bad.append(f'expose_{which}(..., namespace={n2}, namespace_options={opt2}) as the second call ({k1.__name__} then {k2.__name__}, rules '
+                           f'{r1} / {r2}): the namespace help is {root.get_port(n2).help!r}')
+            if len(bad) > 4:
+                return '; '.join(bad[:3])
+    spec = plumpy.ProcessSpec()
+    try:
+        spec.expose_inputs(SrcA, namespace='n', exclude=('a',), include=('b',))
+        bad.append('exclude and include given together were accepted')
+    except ValueError:
+        pass
+    return '; '.join(bad[:3]) or None
+
+
 def strip_namespace_spec(doc):
     """PortNamespace.strip_namespace against DESIGN D.4: the rules strictly below namespace+separator, stripped of
     exactly that prefix, in order.  Counter-model inputs first, then a small grid."""
@@ -539,7 +616,11 @@ def process_scope(doc):
                 bad.append(f'outside any process code current() is {plumpy.Process.current()}')
         gate.set_result(True)
         await asyncio.wait_for(asyncio.gather(ta, tb), 20)
+        for _ in range(5):
+            await asyncio.sleep(0)
         for p in (a, b):
+            if 'call_soon-after-the-last-step' not in [w for w, _ in p.seen]:
+                bad.append(f'the callback scheduled from the last step of {p.pid} never ran')
             for where, cur in p.seen:
                 if cur is not p:
                     bad.append(f'in {where} of {p.pid} current() was {cur}')
@@ -767,8 +848,12 @@ def _launcher_world():
         def save_checkpoint(self, process, tag=None):
             log.append(('save', process.pid, tag))
 
+        missing = {}      # tag -> exception class raised for it (a checkpoint that does not exist)
+
         def load_checkpoint(self, pid, tag=None):
             log.append(('load', pid, tag))
+            if tag in Pers.missing:
+                raise Pers.missing[tag](f'no checkpoint {tag!r} of {pid}')
             return Bundle_(pid, tag)
 
         def get_checkpoints(self):
@@ -888,6 +973,29 @@ def launcher_tasks(doc):
                 bad.append(f'continue(nowait={nowait}, persister={with_pers}, tag={tag}, via __call__={use_call}, context given={with_ctx}): '
                            f'outcome {outcome}, did {at_return} (unbundle: key, context carries the configured loader, keeps the '
                            f'given context values); expected {want_out}, {want_log}')
+        # ---- continue from a checkpoint that does not exist: the task fails with that error; exactly the requested checkpoint was
+        #      asked for and nothing is run
+        for nowait, tag, err, use_call in itertools.product([False, True], [None, 'T'], [KeyError, FileNotFoundError], [False, True]):
+            log, Proc, Pers, Loader = _launcher_world()
+            Pers.missing = {tag: err}
+            launcher = process_comms.ProcessLauncher(persister=Pers(), loader=Loader())
+            kw = {'pid': 7, 'nowait': nowait}
+            if tag is not None:
+                kw['tag'] = tag
+            try:
+                if use_call:
+                    reply = await launcher(None, {'task': 'continue', 'args': kw})
+                else:
+                    reply = await launcher._continue(None, **kw)
+                outcome = ('ok', reply)
+            except err:
+                outcome = ('error',)
+            except Exception as e:  # noqa
+                outcome = ('other', type(e).__name__)
+            await asyncio.sleep(0.01)
+            if outcome != ('error',) or log != [('load', 7, tag)]:
+                bad.append(f'continue(tag={tag}, nowait={nowait}) of a checkpoint that does not exist ({err.__name__}): outcome {outcome}, '
+                           f"did {log}; expected the persister's error and nothing loaded or run beyond the request for ({7}, {tag})")
         # ---- unknown task type
         log, Proc, Pers, Loader = _launcher_world()
         launcher = process_comms.ProcessLauncher(persister=Pers(), loader=Loader())
@@ -1364,14 +1472,33 @@ def bundle_roundtrip(doc):
             super().define(spec)
             spec.inputs.dynamic = True
             spec.outputs.dynamic = True
-            spec.outline(cls.s0, plumpy.if_(cls.yes)(cls.s1, cls.s2), plumpy.while_(cls.again)(cls.s3), cls.s4)
+            spec.outline(cls.s0, plumpy.if_(cls.yes)(cls.s1, cls.s2).elif_(cls.second)(cls.e1, cls.e2).else_(cls.f1, cls.f2, cls.f3),
+                         plumpy.while_(cls.again)(cls.s3), cls.s4)
 
         def s0(self):
             self.ctx.n = 0
             self.ctx.trace = ['s0']
 
         def yes(self):
-            return True
+            return self.inputs.get('branch', 0) == 0
+
+        def second(self):
+            return self.inputs.get('branch', 0) == 1
+
+        def e1(self):
+            self.ctx.trace.append('e1')
+
+        def e2(self):
+            self.ctx.trace.append('e2')
+
+        def f1(self):
+            self.ctx.trace.append('f1')
+
+        def f2(self):
+            self.ctx.trace.append('f2')
+
+        def f3(self):
+            self.ctx.trace.append('f3')
 
         def s1(self):
             self.ctx.trace.append('s1')
@@ -1414,6 +1541,9 @@ def bundle_roundtrip(doc):
         scenarios.append(('plain', {}, 2, 'kill'))
         for n in range(0, 9):
             scenarios.append(('chain', {'q': 1}, n, None))
+        for n in range(1, 6):       # saved inside the elif_ / else_ branch
+            scenarios.append(('chain', {'branch': 1}, n, None))
+            scenarios.append(('chain', {'branch': 2}, n, None))
         scenarios.append(('chain', {}, 3, 'pause'))
         scenarios.append(('chain', {}, 3, 'kill'))
         scenarios.append(('plain', {}, 2, 'pause+kill'))
@@ -1909,6 +2039,7 @@ def output_emission(doc):
             spec.output_namespace('opt_ns', required=False)
             spec.output('opt_ns.must', valid_type=int)
             spec.output_namespace('dyn', valid_type=int, dynamic=True, required=False)
+            spec.output_namespace('bag', valid_type=int, dynamic=True, required=False)     # never given a declared or created member
 
         def run(self):
             cls = type(self)
@@ -1937,7 +2068,10 @@ def output_emission(doc):
                  ('dyn.sub.b', 2, True), ('dyn.sub.b', 'two', False), ('undeclared', 1, False), ('ns.other', 1, False),
                  ('opt_ns.must', 'bad', False), ('opt_ns.deeper.leaf', 'bad', False), ('crashy', 5, 'KeyError'),
                  ('dyn.a', None, False), ('dyn.a', '', False), ('dyn.a', 0.0, False), ('dyn.sub.b', None, False), ('dyn.a', 0, True),
-                 ('x', 0, False), ('opt', '', True), ('ns.inner', 0, True)]
+                 ('x', 0, False), ('opt', '', True), ('ns.inner', 0, True),
+                 # a whole mapping emitted onto a declared namespace that has no explicitly declared ports (an empty namespace is
+                 # falsy): it is validated by THAT namespace, not treated as an undeclared port of the parent
+                 ('bag', {'a': 1}, True), ('bag', {'a': 'one'}, False), ('bag', {}, True), ('dyn', {'sub': {'b': 2}}, True)]
 
     async def main():
         bad = []
@@ -2504,6 +2638,7 @@ def input_validation(doc):
     an independent reference model: construction raises exactly when the reference rejects; accepted inputs = given values
     completed with the declared defaults, read-only at every declared level; raw_inputs and the caller's dict untouched"""
     import copy
+    import functools
     import itertools
     import plumpy
     from plumpy.utils import AttributesFrozendict
@@ -2521,6 +2656,10 @@ def input_validation(doc):
             spec.input('opt', valid_type=str, required=False)
             spec.input('dflt', valid_type=int, default=7)
             spec.input('cdflt', valid_type=list, default=lambda: [1, 2])
+            # callable defaults that are not plain functions: a class, a partial, a bound method
+            spec.input('kdflt', valid_type=list, default=list)
+            spec.input('pdflt', valid_type=int, default=functools.partial(int, '5'))
+            spec.input('mdflt', valid_type=str, default='abc'.upper)
             spec.input('pos', valid_type=int, required=False, validator=positive)
             spec.input('ns.a', valid_type=int)
             spec.input('ns.b', valid_type=int, default=3)
@@ -2537,7 +2676,7 @@ def input_validation(doc):
             return False, None
         done = {}
         ok = True
-        allowed = {'req', 'opt', 'dflt', 'cdflt', 'pos', 'ns', 'lazy', 'dyn'}
+        allowed = {'req', 'opt', 'dflt', 'cdflt', 'kdflt', 'pdflt', 'mdflt', 'pos', 'ns', 'lazy', 'dyn'}
         if set(inp) - allowed:
             ok = False
 
@@ -2559,6 +2698,9 @@ def input_validation(doc):
         leaf(inp, done, 'opt', str, required=False)
         leaf(inp, done, 'dflt', int, default=7)
         leaf(inp, done, 'cdflt', list, default=lambda: [1, 2])
+        leaf(inp, done, 'kdflt', list, default=lambda: [])
+        leaf(inp, done, 'pdflt', int, default=5)
+        leaf(inp, done, 'mdflt', str, default='ABC')
         leaf(inp, done, 'pos', int, required=False, validator=positive)
         ns_in = inp.get('ns', {})
         if not isinstance(ns_in, dict):
@@ -2605,6 +2747,7 @@ def input_validation(doc):
         {'dyn': {}}, {'req': ()}, {'opt': ()}, {'ns': {'a': ()}},
         {'dyn': {'p': None}}, {'dyn': {'p': ''}}, {'dyn': {'p': 0.0}}, {'dyn': {'p': []}}, {'dyn': {'sub': {'q': None}}},
         {'dyn': {'p': 0}}, {'req': 0}, {'req': 0.0}, {'opt': ''}, {'ns': {'a': 0}}, {'ns': {'a': None}},
+        {'kdflt': [3]}, {'pdflt': 6}, {'mdflt': 'given'}, {'pdflt': 'six'},
     ]
     drops = [(), ('req',), ('ns',)]
 
